@@ -89,6 +89,23 @@ def run(ctx):
     ctx.ob('R14.2', 'the wrapped value has a single owner: Arc<Mutex<Option<T>>>', okf, '%s:%s' % (sw['file'], sw['line']), str([(f['name'], f['ty']) for f in tfields]), construct='syncwrapper:shape')
     bg = closure_args_of(prog, drop_b, [SPAWN_BG])
     ctx.ob('R14.2', 'Drop hands one closure to spawn_blocking_background', len(bg) == 1, ctx.where(drop_b), '%d closures' % len(bg), construct='drop:spawn-bg')
+    dan0 = prog.an(drop_b)
+    spb = [blk.idx for blk in drop_b.blocks if blk.term.kind == 'call' and not blk.cleanup and SPAWN_BG in blk.term.callee_names()]
+    esc = dan0.reach([0], ('normal',), avoid=spb)
+    ctx.ob('R14.2', 'every path of Drop hands the value to the background blocking thread', bool(spb) and not any(e in esc for e in dan0.exits()['return']), ctx.where(drop_b),
+           'Drop can return without spawning the background destruction: the last owner then destroys the value on the calling thread' if spb else '', construct='drop:spawn-conditional')
+    cu = [(b.name, blk.term.line) for b in bodies for blk in b.blocks if blk.term.kind == 'call' and not blk.cleanup and any(n.endswith('panic::catch_unwind') or n.endswith('panicking::try') for n in blk.term.callee_names())]
+    ctx.ob('R14.4', 'a panic in the closure unwinds through the MutexGuard (poisons the wrapper); it is not caught', not cu, '', str(cu), construct='catch-unwind')
+    if sp:
+        cb_ = sp[0][1]
+        can_ = prog.an(cb_)
+        rec = [(blk.term.line, sorted(blk.term.callee_names())[0]) for blk in cb_.blocks if blk.term.kind == 'call' and not blk.cleanup and
+               any(n.endswith('PoisonError::<T>::into_inner') or n.endswith('PoisonError::into_inner') or n.endswith('::unwrap_or_else') or n.endswith('::unwrap_or') or n.endswith('::unwrap_or_default') for n in blk.term.callee_names())
+               and any(s[0] == 'call' and s[1] == 'std::sync::Mutex::lock' for a in blk.term.args for s in sources(can_, a, deep=True))]
+        uw = [blk for blk in cb_.blocks if blk.term.kind == 'call' and not blk.cleanup and blk.term.callee_names() & {'std::result::Result::unwrap', 'std::result::Result::expect'}
+              and any(s[0] == 'call' and s[1] == 'std::sync::Mutex::lock' for s in sources(can_, blk.term.args[0]))]
+        ctx.ob('R14.4', 'interact does not run on a poisoned value (the lock result is unwrapped, never recovered)', not rec and len(uw) == 1, ctx.where(cb_),
+               'poison recovery in the interact closure: %s' % rec if rec else '%d unwraps of the lock result' % len(uw), construct='interact:poison-recovery')
     takers = []
     for b in bodies:
         ban = prog.an(b)
